@@ -1,7 +1,7 @@
 (* C11 - tie of the hand-written scan models (Model/Seek.v) to the
    arithmetic of find_token / find_token_reverse as translated from the
    CURRENT source (Gen/Exprs.v: ftr_window, ftr_found, ftr_next_cur,
-   ftr_stop, ft_read_size, ft_found, ft_next_cur).  The loops below are the
+   ftr_stop, ftr_clipped, ft_read_size, ft_found, ft_next_cur, ft_short).  The loops below are the
    model's loops with every arithmetic expression replaced by the generated
    one; they are proved equal to the model's, so the C11 theorems are
    theorems about loops whose read windows, found offsets, cursor updates
@@ -21,7 +21,9 @@ Fixpoint ft_loop_src (H : Z) (c : list Z) (attempts : nat) (start cur : Z)
       | [] => ReachedEof (lenZ c)
       | _ => match find_lf chunk with
              | Some i => Found (ft_found start cur i)
-             | None => ft_loop_src H c a start (ft_next_cur cur (lenZ chunk))
+             | None => if ft_short (lenZ chunk) H then ReachedEof (lenZ c)
+                       else ft_loop_src H c a start
+                              (ft_next_cur cur (lenZ chunk))
              end
       end
   end.
@@ -38,12 +40,13 @@ Fixpoint ftr_loop_src (H : Z) (c : list Z) (attempts : nat) (start cur : Z)
       | _ => match rfind_lf chunk with
              | Some i => Found (ftr_found ro i)
              | None =>
-                 match a with
-                 | O => ErrMaxLine
-                 | S _ => if ftr_stop ro then ReachedEof 0
-                          else ftr_loop_src H c a start
-                                 (ftr_next_cur cur (lenZ chunk))
-                 end
+                 if ftr_clipped rs H then ReachedEof 0
+                 else match a with
+                      | O => ErrMaxLine
+                      | S _ => if ftr_stop ro then ReachedEof 0
+                               else ftr_loop_src H c a start
+                                      (ftr_next_cur cur (lenZ chunk))
+                      end
              end
       end
   end.
@@ -67,9 +70,11 @@ Theorem C11_find_token_loop_is_source : forall H c attempts start cur,
 Proof.
   intros H c attempts. induction attempts as [|a IH]; intros start cur.
   - reflexivity.
-  - cbn [ft_loop_src find_token_loop]. unfold ft_read_size, ft_found, ft_next_cur.
+  - cbn [ft_loop_src find_token_loop].
+    unfold ft_read_size, ft_found, ft_next_cur, ft_short.
     destruct (read c (start + cur) H); [reflexivity|].
-    destruct (find_lf (z :: l)); [reflexivity|]. apply IH.
+    destruct (find_lf (z :: l)); [reflexivity|].
+    destruct (_ <? H); [reflexivity|]. apply IH.
 Qed.
 
 Theorem C11_find_token_reverse_loop_is_source : forall H c attempts start cur,
@@ -82,6 +87,7 @@ Proof.
     rewrite ftr_window_is_model.
     destruct (read c _ _); [reflexivity|].
     destruct (rfind_lf (z :: l)); [reflexivity|].
+    unfold ftr_clipped. destruct (_ <? H); [reflexivity|].
     destruct a; [reflexivity|]. unfold ftr_stop, ftr_next_cur.
     destruct (_ =? 0); [reflexivity|]. apply IH.
 Qed.
